@@ -109,7 +109,7 @@ func Run(c *core.Ctx) error {
 	js = append(js, mk("direct", c.Pick(10, 60), genDirect)...)
 	js = append(js, mk("fault", c.Pick(24, 200), genFault)...)
 	js = append(js, mk("sac", c.Pick(10, 80), genSac)...)
-	js = append(js, mk("qfull", c.Pick(8, 24), genQfull)...)
+	js = append(js, mk("qfull", c.Pick(12, 24), genQfull)...)
 	run(tm, parallel, js)
 	return nil
 }
